@@ -154,7 +154,7 @@ class Case(object):
 
   def solve(self, qname, bad, assumptions=(), expect='unsat', timeout=60, witness=None,
             sig=None, required=True, kind='main', replay=None, note=None, logic=None, robust=None, probe=False,
-            inline_replay=None):
+            inline_replay=None, weak=False):
     """Ask the solver for a model of  assumptions AND ctx-assumptions AND bad.
 
     expect='unsat': property query (sat = candidate violation).
@@ -223,6 +223,8 @@ class Case(object):
       res['witness'] = w
       res['sig'] = sig(m) if callable(sig) else (sig or {})
       res['replay'] = replay
+      if weak:
+        res['weak_witness'] = True  # e.g. implementation-defined behaviour: a witness that happens to behave is inconclusive
       self.last_model = m
       if inline_replay is not None and not replay:
         # the witness is run on the real code right here (the traced objects live in this worker)
